@@ -63,9 +63,23 @@ func attached(tag int) interface{} {
 		return parser.ErrVals{"b": 2, "c": "x"}
 	case 23:
 		return map[string]interface{}{"b": 2}
+	case 25: // an ErrVals that contains itself
+		ev := parser.ErrVals{"k": 1}
+		ev["self"] = ev
+		return ev
+	case 26: // a value whose own MarshalJSON fails
+		return failingMarshaler{}
+	case 27:
+		return json.RawMessage("{not json")
+	case 28:
+		return []interface{}{1, failingMarshaler{}}
 	}
 	return nil
 }
+
+type failingMarshaler struct{}
+
+func (failingMarshaler) MarshalJSON() ([]byte, error) { return nil, errors.New("cannot be encoded") }
 
 type derefErr struct{ msg string }
 
@@ -146,6 +160,11 @@ func doNerr(id string, x *sexp) (out string) {
 				case "v":
 					tag, _ := strconv.Atoi(v.list[1].atom)
 					val := attached(tag)
+					if tag == 24 {
+						// the outermost layer of this very chain, attached to an inner one: the chain then contains itself
+						vals[key] = layers[len(layers)-1]
+						continue
+					}
 					vals[key] = val
 					// the encodability oracle given to the model must be what json.Marshal says
 					data, err := json.Marshal(val)
